@@ -253,7 +253,7 @@ func c01Observe(t *Trace, cat string, idx bleve.Index, idSpace, keySpace int, r 
 }
 
 func runC01(t *Trace, r *Rng, tier string, _ []string) {
-	nHist, maxOps := 5, 40
+	nHist, maxOps := 9, 40
 	if tier == "thorough" {
 		nHist, maxOps = 60, 150
 	}
